@@ -122,7 +122,7 @@ def main(tier, seed):
             tid = f"{j['id']}-p{pi}"
             traces.append({"id": tid, "vars": allvars, "progs": progs, "N": N, "steps": steps})
             meta[tid] = (j, r, pi)
-    verdicts, stats, errors = C.run_tlc(traces, timeout=3000)
+    verdicts, stats, errors = C.run_tlc(traces)
     for tid, e in errors.items():
         if "not encodable" in e:
             notes["unsupported"] += 1
